@@ -1,9 +1,3 @@
-"""C15 -- ui.json validation accepts exactly the valid values, statelessly (xh: CrossHair on the real kernels)."""
-from __future__ import annotations
-
-from xh.runner import Cond, run_xh
-
-PRELUDE = '''
 from typing import Optional, Union, List, Tuple
 from copy import deepcopy
 from geoh5py.ui_json.utils import requires_value
@@ -32,10 +26,9 @@ def _accepts(fn, *a):
         return True
     except BaseValidationError:
         return False
-'''
 
-CONDS = [
-    Cond("requires_value_matches_reference", '''
+
+
 def requires_value_matches_reference(opt: bool, en: bool, has_opt: bool, has_dep: bool, dep_opt_state: int, dep_en: bool,
                                      dep_val: bool, dtype_enabled: bool, has_group: bool, gopt: bool, gen: bool) -> bool:
     """
@@ -76,9 +69,50 @@ def requires_value_matches_reference(opt: bool, en: bool, has_opt: bool, has_dep
     else:
         exp = True
     return bool(got) == bool(exp)
-''', "requires_value == reference hierarchy (groupOptional > dependency > optional) for every combination of the 11 switches (the dependency's 'optional' member absent / False / True)"),
 
-    Cond("simple_form_accepts_iff_valid", '''
+def requires_value_matches_reference__reach(opt: bool, en: bool, has_opt: bool, has_dep: bool, dep_opt_state: int, dep_en: bool,
+                                     dep_val: bool, dtype_enabled: bool, has_group: bool, gopt: bool, gen: bool) -> bool:
+    """
+    pre: 0 <= dep_opt_state < 3
+    post: False
+    """
+    dep_opt = dep_opt_state == 2          # 0: no 'optional' member, 1: explicit False, 2: True
+    form = {"label": "a", "value": 1}
+    if has_opt:
+        form["optional"] = opt
+        form["enabled"] = en
+    dep = {"label": "d", "value": dep_val}
+    if dep_opt_state:
+        dep["optional"] = dep_opt
+        dep["enabled"] = dep_en
+    if has_dep:
+        form["dependency"] = "d"
+        form["dependencyType"] = "enabled" if dtype_enabled else "disabled"
+    g = {"label": "g", "value": 1}
+    if has_group:
+        form["group"] = "G"
+        g["group"] = "G"
+        if gopt:
+            g["groupOptional"] = True
+            g["enabled"] = gen
+    ui = {"p": form, "d": dep, "g": g}
+    got = requires_value(ui, "p")
+    # reference written from the documented hierarchy: groupOptional > dependency > optional
+    if has_group and gopt and not gen:
+        exp = False
+    elif has_dep:
+        key_val = dep_en if dep_opt else dep_val
+        exp = key_val if dtype_enabled else (not key_val)
+        if has_opt and exp:
+            exp = en
+    elif has_opt:
+        exp = en
+    else:
+        exp = True
+    return bool(got) == bool(exp)
+
+
+
 def simple_form_accepts_iff_valid(value: Val, form_value: Union[bool, int, str], has_optional: bool, optional: bool,
                                   enabled: bool) -> bool:
     """
@@ -94,9 +128,25 @@ def simple_form_accepts_iff_valid(value: Val, form_value: Union[bool, int, str],
     required = True if not has_optional else enabled
     exp = (value is None and not required) or isinstance(value, type(form_value))
     return ok == exp
-''', "a value form accepts v iff isinstance(v, declared type) or (v is None and the form does not require a value)"),
 
-    Cond("choice_form_accepts_iff_member", '''
+def simple_form_accepts_iff_valid__reach(value: Val, form_value: Union[bool, int, str], has_optional: bool, optional: bool,
+                                  enabled: bool) -> bool:
+    """
+    pre: _small(value) and _small(form_value)
+    post: False
+    """
+    form = {"label": "x", "value": form_value}
+    if has_optional:
+        form["optional"] = optional
+        form["enabled"] = enabled
+    v = InputValidation(ui_json={"p": form})
+    ok = _accepts(v.validate, "p", value)
+    required = True if not has_optional else enabled
+    exp = (value is None and not required) or isinstance(value, type(form_value))
+    return ok == exp
+
+
+
 def choice_form_accepts_iff_member(value: Val, c0: str, c1: str, has_optional: bool, enabled: bool) -> bool:
     """
     pre: _small(value) and len(c0) <= 2 and len(c1) <= 2
@@ -111,9 +161,24 @@ def choice_form_accepts_iff_member(value: Val, c0: str, c1: str, has_optional: b
     required = True if not has_optional else enabled
     exp = (value is None and not required) or (isinstance(value, str) and value in (c0, c1))
     return ok == exp
-''', "a choice form accepts v iff v is one of the listed strings, or None when no value is required"),
 
-    Cond("enforcer_pool_stateless", '''
+def choice_form_accepts_iff_member__reach(value: Val, c0: str, c1: str, has_optional: bool, enabled: bool) -> bool:
+    """
+    pre: _small(value) and len(c0) <= 2 and len(c1) <= 2
+    post: False
+    """
+    form = {"label": "x", "value": c0, "choiceList": [c0, c1]}
+    if has_optional:
+        form["optional"] = True
+        form["enabled"] = enabled
+    v = InputValidation(ui_json={"p": form})
+    ok = _accepts(v.validate, "p", value)
+    required = True if not has_optional else enabled
+    exp = (value is None and not required) or (isinstance(value, str) and value in (c0, c1))
+    return ok == exp
+
+
+
 def enforcer_pool_stateless(i1: int, i2: int, i3: int) -> bool:
     """
     pre: 0 <= i1 < 8 and i2 == i1 and 0 <= i3 < 8
@@ -125,9 +190,21 @@ def enforcer_pool_stateless(i1: int, i2: int, i3: int) -> bool:
     _accepts(used.enforce, v1)
     _accepts(used.enforce, v2)
     return _accepts(used.enforce, v3) == _accepts(mk().enforce, v3)
-''', "EnforcerPool verdict on a value does not depend on earlier enforce() calls", exclusions={}),
 
-    Cond("parameter_string_stateless_and_rejection_keeps_value", '''
+def enforcer_pool_stateless__reach(i1: int, i2: int, i3: int) -> bool:
+    """
+    pre: 0 <= i1 < 8 and i2 == i1 and 0 <= i3 < 8
+    post: False
+    """
+    v1, v2, v3 = ALPHA[i1], ALPHA[i2], ALPHA[i3]
+    mk = lambda: EnforcerPool("p", [TypeEnforcer({str}), ValueEnforcer({"a", "b", None})])
+    used = mk()
+    _accepts(used.enforce, v1)
+    _accepts(used.enforce, v2)
+    return _accepts(used.enforce, v3) == _accepts(mk().enforce, v3)
+
+
+
 def parameter_string_stateless_and_rejection_keeps_value(v0: Val, v1: Val, v2: Val) -> bool:
     """
     pre: _small(v0) and _small(v1) and _small(v2)
@@ -148,9 +225,30 @@ def parameter_string_stateless_and_rejection_keeps_value(v0: Val, v1: Val, v2: V
         return False                      # a rejected assignment changed the stored value
     fresh = mk()
     return assign(p, v2) == assign(fresh, v2)
-''', "Parameter (string): a rejected assignment leaves the stored value unchanged and the verdict does not depend on history"),
 
-    Cond("parameter_integer_stateless_and_rejection_keeps_value", '''
+def parameter_string_stateless_and_rejection_keeps_value__reach(v0: Val, v1: Val, v2: Val) -> bool:
+    """
+    pre: _small(v0) and _small(v1) and _small(v2)
+    post: False
+    """
+    mk = lambda: StringParameter("s")
+    p = mk()
+    def assign(par, v):
+        try:
+            par.value = v
+            return True
+        except BaseValidationError:
+            return False
+    assign(p, v0)
+    before = p.value
+    ok1 = assign(p, v1)
+    if not ok1 and not (p.value is before or p.value == before):
+        return False                      # a rejected assignment changed the stored value
+    fresh = mk()
+    return assign(p, v2) == assign(fresh, v2)
+
+
+
 def parameter_integer_stateless_and_rejection_keeps_value(v0: Val, v1: Val, v2: Val) -> bool:
     """
     pre: _small(v0) and _small(v1) and _small(v2)
@@ -171,9 +269,30 @@ def parameter_integer_stateless_and_rejection_keeps_value(v0: Val, v1: Val, v2: 
         return False                      # a rejected assignment changed the stored value
     fresh = mk()
     return assign(p, v2) == assign(fresh, v2)
-''', "Parameter (integer): a rejected assignment leaves the stored value unchanged and the verdict does not depend on history"),
 
-    Cond("parameter_bool_stateless_and_rejection_keeps_value", '''
+def parameter_integer_stateless_and_rejection_keeps_value__reach(v0: Val, v1: Val, v2: Val) -> bool:
+    """
+    pre: _small(v0) and _small(v1) and _small(v2)
+    post: False
+    """
+    mk = lambda: IntegerParameter("i")
+    p = mk()
+    def assign(par, v):
+        try:
+            par.value = v
+            return True
+        except BaseValidationError:
+            return False
+    assign(p, v0)
+    before = p.value
+    ok1 = assign(p, v1)
+    if not ok1 and not (p.value is before or p.value == before):
+        return False                      # a rejected assignment changed the stored value
+    fresh = mk()
+    return assign(p, v2) == assign(fresh, v2)
+
+
+
 def parameter_bool_stateless_and_rejection_keeps_value(v0: Val, v1: Val, v2: Val) -> bool:
     """
     pre: _small(v0) and _small(v1) and _small(v2)
@@ -194,9 +313,30 @@ def parameter_bool_stateless_and_rejection_keeps_value(v0: Val, v1: Val, v2: Val
         return False                      # a rejected assignment changed the stored value
     fresh = mk()
     return assign(p, v2) == assign(fresh, v2)
-''', "Parameter (bool): a rejected assignment leaves the stored value unchanged and the verdict does not depend on history"),
 
-    Cond("parameter_restricted_stateless_and_rejection_keeps_value", '''
+def parameter_bool_stateless_and_rejection_keeps_value__reach(v0: Val, v1: Val, v2: Val) -> bool:
+    """
+    pre: _small(v0) and _small(v1) and _small(v2)
+    post: False
+    """
+    mk = lambda: BoolParameter("b")
+    p = mk()
+    def assign(par, v):
+        try:
+            par.value = v
+            return True
+        except BaseValidationError:
+            return False
+    assign(p, v0)
+    before = p.value
+    ok1 = assign(p, v1)
+    if not ok1 and not (p.value is before or p.value == before):
+        return False                      # a rejected assignment changed the stored value
+    fresh = mk()
+    return assign(p, v2) == assign(fresh, v2)
+
+
+
 def parameter_restricted_stateless_and_rejection_keeps_value(i0: int, i1: int, i2: int) -> bool:
     """
     pre: 0 <= i0 < 8 and 0 <= i1 < 8 and i2 == i1
@@ -218,9 +358,31 @@ def parameter_restricted_stateless_and_rejection_keeps_value(i0: int, i1: int, i
         return False                      # a rejected assignment changed the stored value
     fresh = mk()
     return assign(p, v2) == assign(fresh, v2)
-''', "Parameter (restricted): a rejected assignment leaves the stored value unchanged and the verdict does not depend on history"),
 
-    Cond("choice_parameter_rejection_by_any_error_keeps_value", '''
+def parameter_restricted_stateless_and_rejection_keeps_value__reach(i0: int, i1: int, i2: int) -> bool:
+    """
+    pre: 0 <= i0 < 8 and 0 <= i1 < 8 and i2 == i1
+    post: False
+    """
+    v0, v1, v2 = ALPHA[i0], ALPHA[i1], ALPHA[i2]
+    mk = lambda: ValueRestrictedParameter("v", ["a", "b", 1])
+    p = mk()
+    def assign(par, v):
+        try:
+            par.value = v
+            return True
+        except BaseValidationError:
+            return False
+    assign(p, v0)
+    before = p.value
+    ok1 = assign(p, v1)
+    if not ok1 and not (p.value is before or p.value == before):
+        return False                      # a rejected assignment changed the stored value
+    fresh = mk()
+    return assign(p, v2) == assign(fresh, v2)
+
+
+
 def choice_parameter_rejection_by_any_error_keeps_value(i0: int, i1: int, i2: int) -> bool:
     """
     pre: 0 <= i0 < 3 and 0 <= i1 < 7 and 0 <= i2 < 7
@@ -260,11 +422,49 @@ def choice_parameter_rejection_by_any_error_keeps_value(i0: int, i1: int, i2: in
         return False
     fresh = mk()
     return assign(p, v2) == assign(fresh, v2)
-''', "Parameter (choice list / object type restricted): a value refused with ANY error (validation error, or TypeError/AttributeError "
-     "from an enforcer that cannot evaluate it: unhashable values, values without default_type_uid) leaves the stored value unchanged; "
-     "verdicts independent of history"),
 
-    Cond("requires_value_blank_group_name", '''
+def choice_parameter_rejection_by_any_error_keeps_value__reach(i0: int, i1: int, i2: int) -> bool:
+    """
+    pre: 0 <= i0 < 3 and 0 <= i1 < 7 and 0 <= i2 < 7
+    post: False
+    """
+    import uuid as _uuid
+    U1, U2 = _uuid.UUID(int=1), _uuid.UUID(int=2)
+    class T1:
+        @staticmethod
+        def default_type_uid():
+            return U1
+    class T2:
+        @staticmethod
+        def default_type_uid():
+            return U2
+    kind = 0
+    if kind == 0:
+        alpha = [None, "a", "b", 1, "q", {"a": 1}, ["a"]]
+        mk = lambda: ValueRestrictedParameter("v", ["a", "b", 1])
+    else:
+        alpha = [None, T1, T2, "a", 3, U1, ["a"]]
+        mk = lambda: TypeUIDRestrictedParameter("o", [str(U1)])     # mesh_type members of a ui.json are text
+    v0, v1, v2 = alpha[[0, 1, 6][i0]], alpha[i1], alpha[i2]
+    def assign(par, v):
+        try:
+            par.value = v
+            return True
+        except Exception:                 # a value refused with any error is a rejected value
+            return False
+    p = mk()
+    assign(p, v0)
+    before = p.value
+    ok1 = assign(p, v1)
+    if not ok1 and p.value is not before:
+        return False                      # a rejected assignment changed the stored value
+    if ok1 and p.value is not v1:
+        return False
+    fresh = mk()
+    return assign(p, v2) == assign(fresh, v2)
+
+
+
 def requires_value_blank_group_name(gsel: int, osel: int, gopt: bool, gen: bool, oopt: bool, oen: bool, has_opt: bool, en: bool) -> bool:
     """
     pre: 0 <= gsel < 4 and 0 <= osel < 3
@@ -304,10 +504,49 @@ def requires_value_blank_group_name(gsel: int, osel: int, gopt: bool, gen: bool,
     else:
         exp = True
     return bool(got) == bool(exp)
-''', "requires_value: group membership is equality of group names, also for blank / falsy names; another group's groupOptional "
-     "switch never changes the verdict"),
 
-    Cond("form_string_member_rejection_leaves_form_unchanged", '''
+def requires_value_blank_group_name__reach(gsel: int, osel: int, gopt: bool, gen: bool, oopt: bool, oen: bool, has_opt: bool, en: bool) -> bool:
+    """
+    pre: 0 <= gsel < 4 and 0 <= osel < 3
+    post: False
+    """
+    names = ["", "G", "0", None]                  # None: the parameter has no group member
+    onames = ["H", "", "G"]
+    form = {"label": "a", "value": 1}
+    if has_opt:
+        form["optional"] = True
+        form["enabled"] = en
+    mate = {"label": "m", "value": 1}
+    gname = names[gsel]
+    if gname is not None:
+        form["group"] = gname
+        mate["group"] = gname
+        if gopt:
+            mate["groupOptional"] = True
+            mate["enabled"] = gen
+    other = {"label": "o", "value": 1, "group": onames[osel]}
+    if oopt:
+        other["groupOptional"] = True
+        other["enabled"] = oen
+    ui = {"p": form, "m": mate, "o": other}
+    got = requires_value(ui, "p")
+    # the group of p is the set of forms whose group member EQUALS p's; a group is optional-and-disabled when one of its
+    # members carries groupOptional and is not enabled
+    exp_group_off = False
+    if gname is not None:
+        members = [f for f in (form, mate, other) if f.get("group", None) == gname]
+        flagged = [f for f in members if f.get("groupOptional", False)]
+        exp_group_off = bool(flagged) and not flagged[0].get("enabled", True)
+    if exp_group_off:
+        exp = False
+    elif has_opt:
+        exp = en
+    else:
+        exp = True
+    return bool(got) == bool(exp)
+
+
+
 def form_string_member_rejection_leaves_form_unchanged(mi: int, i1: int, i2: int) -> bool:
     """
     pre: 0 <= mi < 6 and 0 <= i1 < 8 and i2 == i1
@@ -333,10 +572,35 @@ def form_string_member_rejection_leaves_form_unchanged(mi: int, i1: int, i2: int
         return False
     fresh = mk()
     return assign(used, v2) == assign(fresh, v2)
-''', "FormParameter (string): a rejected member assignment leaves form() and the active members unchanged; accepted ones are stored; "
-     "the verdict does not depend on earlier assignments", timeout=90),
 
-    Cond("form_bool_member_rejection_leaves_form_unchanged", '''
+def form_string_member_rejection_leaves_form_unchanged__reach(mi: int, i1: int, i2: int) -> bool:
+    """
+    pre: 0 <= mi < 6 and 0 <= i1 < 8 and i2 == i1
+    post: False
+    """
+    kind = 0
+    member = ["optional", "enabled", "group", "dependency", "tooltip", "main"][mi]
+    mk = [lambda: StringFormParameter("p", value="x", label="l"), lambda: BoolFormParameter("p", value=True, label="l"),
+          lambda: IntegerFormParameter("p", value=1, label="l")][kind]
+    v1, v2 = ALPHA[i1], ALPHA[i2]
+    def assign(f, v):
+        try:
+            setattr(f, member, v)
+            return True
+        except BaseValidationError:
+            return False
+    used = mk()
+    before_form, before_active = dict(used.form()), list(used.active)
+    ok1 = assign(used, v1)
+    if not ok1 and (dict(used.form()) != before_form or list(used.active) != before_active):
+        return False                      # a rejected member assignment changed the form
+    if ok1 and not (member in used.active and used.form()[member] == v1):
+        return False
+    fresh = mk()
+    return assign(used, v2) == assign(fresh, v2)
+
+
+
 def form_bool_member_rejection_leaves_form_unchanged(mi: int, i1: int, i2: int) -> bool:
     """
     pre: 0 <= mi < 6 and 0 <= i1 < 8 and i2 == i1
@@ -362,10 +626,35 @@ def form_bool_member_rejection_leaves_form_unchanged(mi: int, i1: int, i2: int) 
         return False
     fresh = mk()
     return assign(used, v2) == assign(fresh, v2)
-''', "FormParameter (bool): a rejected member assignment leaves form() and the active members unchanged; accepted ones are stored; "
-     "the verdict does not depend on earlier assignments", timeout=90),
 
-    Cond("form_integer_member_rejection_leaves_form_unchanged", '''
+def form_bool_member_rejection_leaves_form_unchanged__reach(mi: int, i1: int, i2: int) -> bool:
+    """
+    pre: 0 <= mi < 6 and 0 <= i1 < 8 and i2 == i1
+    post: False
+    """
+    kind = 1
+    member = ["optional", "enabled", "group", "dependency", "tooltip", "main"][mi]
+    mk = [lambda: StringFormParameter("p", value="x", label="l"), lambda: BoolFormParameter("p", value=True, label="l"),
+          lambda: IntegerFormParameter("p", value=1, label="l")][kind]
+    v1, v2 = ALPHA[i1], ALPHA[i2]
+    def assign(f, v):
+        try:
+            setattr(f, member, v)
+            return True
+        except BaseValidationError:
+            return False
+    used = mk()
+    before_form, before_active = dict(used.form()), list(used.active)
+    ok1 = assign(used, v1)
+    if not ok1 and (dict(used.form()) != before_form or list(used.active) != before_active):
+        return False                      # a rejected member assignment changed the form
+    if ok1 and not (member in used.active and used.form()[member] == v1):
+        return False
+    fresh = mk()
+    return assign(used, v2) == assign(fresh, v2)
+
+
+
 def form_integer_member_rejection_leaves_form_unchanged(mi: int, i1: int, i2: int) -> bool:
     """
     pre: 0 <= mi < 6 and 0 <= i1 < 8 and i2 == i1
@@ -391,10 +680,35 @@ def form_integer_member_rejection_leaves_form_unchanged(mi: int, i1: int, i2: in
         return False
     fresh = mk()
     return assign(used, v2) == assign(fresh, v2)
-''', "FormParameter (integer): a rejected member assignment leaves form() and the active members unchanged; accepted ones are stored; "
-     "the verdict does not depend on earlier assignments", timeout=90),
 
-    Cond("validate_data_stateless_one_of", '''
+def form_integer_member_rejection_leaves_form_unchanged__reach(mi: int, i1: int, i2: int) -> bool:
+    """
+    pre: 0 <= mi < 6 and 0 <= i1 < 8 and i2 == i1
+    post: False
+    """
+    kind = 2
+    member = ["optional", "enabled", "group", "dependency", "tooltip", "main"][mi]
+    mk = [lambda: StringFormParameter("p", value="x", label="l"), lambda: BoolFormParameter("p", value=True, label="l"),
+          lambda: IntegerFormParameter("p", value=1, label="l")][kind]
+    v1, v2 = ALPHA[i1], ALPHA[i2]
+    def assign(f, v):
+        try:
+            setattr(f, member, v)
+            return True
+        except BaseValidationError:
+            return False
+    used = mk()
+    before_form, before_active = dict(used.form()), list(used.active)
+    ok1 = assign(used, v1)
+    if not ok1 and (dict(used.form()) != before_form or list(used.active) != before_active):
+        return False                      # a rejected member assignment changed the form
+    if ok1 and not (member in used.active and used.form()[member] == v1):
+        return False
+    fresh = mk()
+    return assign(used, v2) == assign(fresh, v2)
+
+
+
 def validate_data_stateless_one_of(a1: Optional[int], b1: Optional[int], a2: Optional[int], b2: Optional[int]) -> bool:
     """
     pre: all(x is None or -2 <= x <= 2 for x in (a1, b1, a2, b2))
@@ -409,9 +723,24 @@ def validate_data_stateless_one_of(a1: Optional[int], b1: Optional[int], a2: Opt
     got = _accepts(used.validate_data, {"a": a2, "b": b2})
     exp = _accepts(mk().validate_data, {"a": a2, "b": b2})
     return got == exp and exp == (a2 is not None or b2 is not None)
-''', "InputValidation.validate_data: the at-least-one verdict is the same on a used and on a fresh validator and equals the rule"),
 
-    Cond("type_validator_exact", '''
+def validate_data_stateless_one_of__reach(a1: Optional[int], b1: Optional[int], a2: Optional[int], b2: Optional[int]) -> bool:
+    """
+    pre: all(x is None or -2 <= x <= 2 for x in (a1, b1, a2, b2))
+    post: False
+    """
+    ui = {"a": {"label": "a", "value": 1, "optional": True, "enabled": False},
+          "b": {"label": "b", "value": 1, "optional": True, "enabled": False}}
+    extra = {"a": {"one_of": "grp"}, "b": {"one_of": "grp"}}
+    mk = lambda: InputValidation(ui_json=deepcopy(ui), validations=deepcopy(extra))
+    used = mk()
+    _accepts(used.validate_data, {"a": a1, "b": b1})
+    got = _accepts(used.validate_data, {"a": a2, "b": b2})
+    exp = _accepts(mk().validate_data, {"a": a2, "b": b2})
+    return got == exp and exp == (a2 is not None or b2 is not None)
+
+
+
 def type_validator_exact(value: Val, as_list: bool, tsel: int) -> bool:
     """
     pre: 0 <= tsel < 4 and _small(value)
@@ -420,9 +749,18 @@ def type_validator_exact(value: Val, as_list: bool, tsel: int) -> bool:
     types = [[str], [int], [bool], [str, type(None)]][tsel]
     val = [value] if as_list else value
     return _accepts(TypeValidator.validate, "p", val, list(types)) == isinstance(value, tuple(types))
-''', "TypeValidator accepts v (or [v]) iff isinstance(v, declared types)"),
 
-    Cond("value_validator_exact", '''
+def type_validator_exact__reach(value: Val, as_list: bool, tsel: int) -> bool:
+    """
+    pre: 0 <= tsel < 4 and _small(value)
+    post: False
+    """
+    types = [[str], [int], [bool], [str, type(None)]][tsel]
+    val = [value] if as_list else value
+    return _accepts(TypeValidator.validate, "p", val, list(types)) == isinstance(value, tuple(types))
+
+
+
 def value_validator_exact(i: int, as_list: bool, j0: int, j1: int) -> bool:
     """
     pre: 0 <= i < 8 and 0 <= j0 < 8 and j1 == 6
@@ -431,9 +769,18 @@ def value_validator_exact(i: int, as_list: bool, j0: int, j1: int) -> bool:
     value, v0, v1 = ALPHA[i], ALPHA[j0], ALPHA[j1]
     val = [value] if as_list else value
     return _accepts(ValueValidator.validate, "p", val, [v0, v1]) == (value is None or value == v0 or value == v1)
-''', "ValueValidator accepts v iff v is None or one of the listed values"),
 
-    Cond("optional_required_shape_validators_exact", '''
+def value_validator_exact__reach(i: int, as_list: bool, j0: int, j1: int) -> bool:
+    """
+    pre: 0 <= i < 8 and 0 <= j0 < 8 and j1 == 6
+    post: False
+    """
+    value, v0, v1 = ALPHA[i], ALPHA[j0], ALPHA[j1]
+    val = [value] if as_list else value
+    return _accepts(ValueValidator.validate, "p", val, [v0, v1]) == (value is None or value == v0 or value == v1)
+
+
+
 def optional_required_shape_validators_exact(value: Val, as_list: bool, optional: bool, required: bool) -> bool:
     """
     pre: _small(value)
@@ -444,171 +791,29 @@ def optional_required_shape_validators_exact(value: Val, as_list: bool, optional
     r_ok = _accepts(RequiredValidator.validate, "p", value, required)
     s_ok = _accepts(ShapeValidator.validate, "p", val, (1,))
     return o_ok == (value is not None or optional) and r_ok == (value is not None or not required) and s_ok
-''', "Optional/Required/Shape validators accept exactly what their flag admits"),
-]
 
-def _thorough_variants():
-    out = []
-    for c in CONDS:
-        if c.name in ("enforcer_pool_stateless", "parameter_restricted_stateless_and_rejection_keeps_value", "value_validator_exact") \
-                or c.name.endswith("member_rejection_leaves_form_unchanged"):
-            src = c.src.replace("i2 == i1", "0 <= i2 < 8").replace("j1 == 6", "0 <= j1 < 8")
-            src = src.replace(f"def {c.name}(", f"def {c.name}_full(")
-            out.append(Cond(c.name + "_full", src, c.what + " (all triples of the alphabet)", timeout=400))
-    return out
-
-
-CONDS_THOROUGH = [
-    Cond("enforcer_pool_stateless_long", '''
-def enforcer_pool_stateless_long(vs: List[Val], v: Val) -> bool:
+def optional_required_shape_validators_exact__reach(value: Val, as_list: bool, optional: bool, required: bool) -> bool:
     """
-    pre: len(vs) <= 4 and all(_small(x) for x in vs) and _small(v)
-    post: _
+    pre: _small(value)
+    post: False
     """
-    mk = lambda: EnforcerPool("p", [TypeEnforcer({str, int}), ValueEnforcer({"a", 1, None})])
-    used = mk()
-    for x in vs:
-        _accepts(used.enforce, x)
-    return _accepts(used.enforce, v) == _accepts(mk().enforce, v)
-''', "EnforcerPool verdict independent of histories of up to 4 earlier calls"),
-]
+    val = [value] if as_list else value
+    o_ok = _accepts(OptionalValidator.validate, "p", value, optional)
+    r_ok = _accepts(RequiredValidator.validate, "p", value, required)
+    s_ok = _accepts(ShapeValidator.validate, "p", val, (1,))
+    return o_ok == (value is not None or optional) and r_ok == (value is not None or not required) and s_ok
 
 
-# ---------------------------------------------------------------------------------------------------------------
-# association / property-group-type validators need a workspace object graph: real in-memory Workspace driven by the symx
-# explorer with a symbolic choice of the referenced parent and of the value
-# ---------------------------------------------------------------------------------------------------------------
-import numpy as _np
-
-from .common import Scenario, run_property
 
 
-class AssociationValidation(Scenario):
-    pid = "C15"
-
-    def body(self, cx):
-        from geoh5py.workspace import Workspace
-        from geoh5py.groups import ContainerGroup
-        from geoh5py.objects import Points
-        from geoh5py.shared.validators import AssociationValidator, PropertyGroupValidator
-        from geoh5py.shared.exceptions import BaseValidationError
-        ws = Workspace()
-        top = ContainerGroup.create(ws, name="top")
-        sub = ContainerGroup.create(ws, name="sub", parent=top)
-        obj = Points.create(ws, vertices=_np.zeros((2, 3)), name="obj", parent=sub)
-        dat = obj.add_data({"d": {"values": _np.zeros(2)}})
-        pg = obj.find_or_create_property_group(name="pg", properties=[dat.uid], property_group_type="Multi-element")
-        other = Points.create(ws, vertices=_np.zeros((2, 3)), name="other")
-        odat = other.add_data({"od": {"values": _np.zeros(2)}})
-        other_ws = Workspace()
-        alien = Points.create(other_ws, vertices=_np.zeros((2, 3)), name="alien")
-        parents = [ws, top, sub, obj, other]
-        values = [top, sub, obj, dat, pg, other, odat, alien]
-        pi, vi = int(cx.int("parent", 0, len(parents))), int(cx.int("value", 0, len(values)))
-        as_uid = bool(cx.bool("value_given_as_identifier"))
-        parent, value = parents[pi], values[vi]
-
-        def below(p, v):
-            if p is ws:
-                return v is not alien
-            node = v
-            while True:
-                node = getattr(node, "parent", None)
-                if node is None or node is ws.root and p is not ws.root:
-                    return False
-                if node is p:
-                    return True
-        exp = below(parent, value)
-        try:
-            AssociationValidator.validate("p", value.uid if as_uid else value, parent)
-            ok = True
-        except BaseValidationError:
-            ok = False
-        cx.prove(ok == exp, f"value accepted iff it belongs to the referenced parent (parent={getattr(parent, 'name', 'workspace')}, "
-                            f"value={value.name})", "association")
-        # property-group type
-        kind = ["Multi-element", "3D vector", "Strike & dip"][int(cx.int("pg_type", 0, 3))]
-        try:
-            PropertyGroupValidator.validate("p", pg, kind)
-            ok2 = True
-        except BaseValidationError:
-            ok2 = False
-        cx.prove(ok2 == (kind == "Multi-element"), "a property group is accepted iff it has the declared type", "property group type")
-        return "ok"
-
-
-class RejectionByAnyError(Scenario):
-    """restricted parameters: a value refused with any error leaves the stored value unchanged; verdicts do not depend on history"""
-    pid = "C15"
-
-    def body(self, cx):
-        import uuid as _uuid
-        from geoh5py.ui_json.parameters import ValueRestrictedParameter, TypeUIDRestrictedParameter, TypeRestrictedParameter
-        from geoh5py.objects import Points, Curve
-        U1 = Points.default_type_uid()
-        kind = int(cx.int("kind", 0, 3))
-        if kind == 0:
-            alpha = [None, "a", "b", 1, "q", {"a": 1}, ["a"]]
-            mk = lambda: ValueRestrictedParameter("v", ["a", "b", 1])
-            valid = lambda v: isinstance(v, (str, int)) and v in ["a", "b", 1]
-        elif kind == 1:
-            alpha = [None, Points, Curve, "a", 3, U1, ["a"]]
-            mk = lambda: TypeUIDRestrictedParameter("o", [str(U1)])     # mesh_type members of a ui.json are text
-            valid = lambda v: v is Points
-        else:
-            alpha = [None, "a", 1, 1.5, True, ["a"], ("a",)]
-            mk = lambda: TypeRestrictedParameter("t", [str, int])
-            valid = lambda v: isinstance(v, (str, int))
-        n = len(alpha)
-        i0, i1, i2 = int(cx.int("first", 0, n)), int(cx.int("second", 0, n)), int(cx.int("third", 0, n))
-        v0, v1, v2 = alpha[i0], alpha[i1], alpha[i2]
-
-        def assign(par, v):
-            try:
-                par.value = v
-                return True
-            except Exception:                     # refused with any error = rejected
-                return False
-        p = mk()
-        assign(p, v0)
-        before = p.value
-        ok1 = assign(p, v1)
-        if v1 is not None:                        # whether None is allowed is decided by the form-level rules, not here
-            cx.prove(ok1 == valid(v1), f"value {v1!r} accepted iff it satisfies the restriction (kind {kind})", "acceptance")
-        cx.prove(p.value is (v1 if ok1 else before), "a rejected value leaves the stored value unchanged, an accepted one is stored",
-                 "rejection side effects")
-        fresh = mk()
-        cx.prove(assign(p, v2) == assign(fresh, v2), "the verdict does not depend on earlier calls", "history")
-        return "ok"
-
-
-def main(tier, seed):
-    rc1 = run_property(
-        "C15", [AssociationValidation(), RejectionByAnyError()], tier, seed,
-        assumptions=["association / property-group validators: real in-memory Workspace with a three-level tree; the referenced "
-                     "parent, the value (entity or identifier) and the declared group type are symbolic choices, one path each",
-                     "restricted parameters (choice list, object type uid, type list): three assignments chosen symbolically from 7-value "
-                     "alphabets that include values the enforcer cannot evaluate (unhashable, no default_type_uid)"],
-        outside=["uuid enforcer on symbolic strings", "longer strings / larger integers / longer call histories"],
-        bounds="parents {workspace, group, sub-group, object, other object} x values {groups, object, data, property group, "
-               "unrelated object/data, entity of another workspace} x entity/identifier",
-        expected_outcomes={"AssociationValidation": {"ok"}, "RejectionByAnyError": {"ok"}}, jobs=1, validate_max=0,
-    )
-    conds = CONDS + ((CONDS_THOROUGH + _thorough_variants()) if tier == "thorough" else [])
-    rc2 = run_xh(
-        "C15", PRELUDE, conds, tier, seed,
-        assumptions=["CrossHair 0.0.110 / z3 decide each condition over all paths within the stated value bounds",
-                     "values: None, bool, int in [-1,2], str of length <= 1; choice lists of 2 entries; histories of 2-4 calls",
-                     "reference semantics for requires_value written from the function's own docstring hierarchy"],
-        outside=[                 "uuid and type-uid enforcers (uuid parsing of symbolic strings does not terminate in CrossHair)",
-                 "longer strings / larger integers / longer call histories"],
-        bounds="all 2^11 switch combinations for requires_value; values None|bool|int[-1,2]|str(len<=1); sequences of <=3 (thorough: <=5) calls",
-        functions=["geoh5py.ui_json.utils:requires_value (+ group/dependency/optional helpers)",
-                   "geoh5py.ui_json.validation:InputValidation._validations_from_uijson / validate / validate_data",
-                   "geoh5py.shared.validators:TypeValidator/ValueValidator/OptionalValidator/RequiredValidator/ShapeValidator/AtLeastOneValidator",
-                   "geoh5py.ui_json.enforcers:EnforcerPool.enforce/_capture_error/_raise_errors, TypeEnforcer, ValueEnforcer",
-                   "geoh5py.ui_json.parameters:Parameter.value / validate and subclasses",
-                   "geoh5py.ui_json.forms:FormParameter member access (descriptors.FormValueAccess), form(), active"],
-        merge_evidence=True,
-    )
-    return 1 if 1 in (rc1, rc2) else max(rc1, rc2)
+if __name__ == '__main__':
+    from math import inf, nan
+    import sys
+    try:
+        r = requires_value_blank_group_name(0, 2, False, True, True, False, False, False)
+    except BaseException as e:
+        print('RAISED', repr(e)); r = False
+    print('condition requires_value_blank_group_name:', r)
+    if not r:
+        print('VIOLATION property=C15 replay=' + __file__)
+    sys.exit(0 if r else 1)
